@@ -10,7 +10,9 @@ class Model:
     def __init__(self, spec):
         self.spec = spec
         self.T = Tree(spec)
-        self.trans = spec['transitions']          # index = tid
+        # index = tid, whatever the declaration order of the spec
+        self.trans = sorted(spec['transitions'], key=lambda t: t.get('tid', 0)) \
+            if all('tid' in t for t in spec['transitions']) else list(spec['transitions'])
         self.hist_parents = {}
         for n in self.T.order:
             if self.T.kind(n) in HIST:
